@@ -319,7 +319,11 @@ class QuerySim:
         kw = {}
         for k, v in p.items():
             if k.endswith('bounding_box'):
-                kw[k] = BoundingBox(min_latitude=v[0], max_latitude=v[1], min_longitude=v[2], max_longitude=v[3])
+                if int(round(abs(v[0] + v[2]) * 8)) % 2:
+                    kw[k] = BoundingBox(v[0], v[1], v[2], v[3])     # positionally, in the documented order
+                else:
+                    kw[k] = BoundingBox(min_latitude=v[0], max_latitude=v[1], min_longitude=v[2],
+                                        max_longitude=v[3])
             else:
                 kw[k] = list(v) if isinstance(v, list) else v
         return Filter(**kw)
@@ -641,6 +645,11 @@ def gen_query_params(rng, cls, spec):
     if rng.random() < 0.45:
         lo = _date(p['start_date']) if 'start_date' in p else base
         p['end_date'] = (lo + dt.timedelta(days=rng.randint(0, nd))).isoformat()
+    # "no bound" sentinels
+    if rng.random() < 0.06:
+        p['end_date'] = dt.date.max.isoformat()
+    if rng.random() < 0.06:
+        p['start_date'] = dt.date.min.isoformat()
     if cls == 'Query':
         if rng.random() < 0.3:
             p['every_nth'] = rng.choice([1, 2, 3, 7])
